@@ -9,6 +9,7 @@ import Miden.Model.Options
 import Miden.Spec.Parse
 import Miden.Model.Air
 import Miden.Generated.ProvingOpts
+import Miden.Model.Serde
 namespace Miden
 
 def joinNats (l : List Nat) : String := ",".intercalate (l.map toString)
@@ -140,6 +141,26 @@ def renderBatch (b : OpBatch) : String :=
 
 def parseOps (ts : List String) : Option (List Op) := ts.mapM Op.ofToken
 
+def hexDigit (c : Char) : Option Nat :=
+  if '0' ≤ c ∧ c ≤ '9' then some (c.toNat - '0'.toNat)
+  else if 'a' ≤ c ∧ c ≤ 'f' then some (c.toNat - 'a'.toNat + 10) else none
+
+def parseHex (s : String) : Option (List Nat) :=
+  let rec go : List Char → List Nat → Option (List Nat)
+    | [], acc => some acc.reverse
+    | a :: b :: rest, acc =>
+      match hexDigit a, hexDigit b with
+      | some x, some y => go rest ((16 * x + y) :: acc)
+      | _, _ => none
+    | _, _ => none
+  if s == "-" then some [] else go s.toList []
+
+def toHex (bs : List Nat) : String :=
+  let d (n : Nat) : Char := if n < 10 then Char.ofNat (48 + n) else Char.ofNat (87 + n)
+  String.ofList (bs.flatMap fun b => [d (b / 16), d (b % 16)])
+
+def natsOrDash (l : List Nat) : String := if l.isEmpty then "-" else joinNats l
+
 def handle (line : String) : String :=
   let toks := (line.trimAscii.toString.splitOn " ").filter (· ≠ "")
   match toks with
@@ -179,6 +200,22 @@ def handle (line : String) : String :=
         b0 := g 24, b1 := g 25, h0 := g 26 }
     let cs := Air.stackConstraints (mk (parseNats cur)) (mk (parseNats nxt))
     s!"cs {joinNats (cs.map (·.v))}"
+  | ["enc", "stackinputs", vals] =>
+    s!"bytes {toHex (Serde.encodeStackInputs (if vals == "-" then [] else parseNats vals))}"
+  | ["enc", "stackoutputs", st, ad] =>
+    s!"bytes {toHex (Serde.encodeStackOutputs (parseNats st) (if ad == "-" then [] else parseNats ad))}"
+  | ["dec", "stackinputs", h] =>
+    match parseHex h with
+    | none => "bad-request"
+    | some bs => match Serde.decodeStackInputs bs with
+      | some vs => s!"ok {natsOrDash vs}"
+      | none => "reject"
+  | ["dec", "stackoutputs", h] =>
+    match parseHex h with
+    | none => "bad-request"
+    | some bs => match Serde.decodeStackOutputs bs with
+      | some (st, ad) => s!"ok {joinNats st} {natsOrDash ad}"
+      | none => "reject"
   | ["provingopts", name] =>
     match Generated.provingOptionSets.find? (fun r => r.1 == name) with
     | some (_, tag, _, o) =>
